@@ -230,7 +230,11 @@ def strip_unclaimed_permissions(tree):
                     if k != "permission":
                         clear(v)
         for i in u.get("interfaces", []):
-            clear(i.get("bodies"))
+            # (a body of a generic interface is a procedure of the module: it has an accessibility of its own)
+            for b in i.get("bodies") or []:
+                for k, v in b.items():
+                    if k != "permission":
+                        clear(v)
         for t in u.get("types", []):
             pass        # components and bindings keep their permission
 
@@ -260,7 +264,9 @@ def canon_scope(u, scope_default, skip_arg_ifaces=(), locals_override=None):
             generics.append({
                 "kind_": "interface", "name": squash(i["name"]),
                 "modprocs": sorted(x.lower() for x in i.get("modprocs", [])),
-                "bodies": sorted((canon_proc(b, perm, True) for b in i.get("bodies", [])), key=lambda p: p["name"]),
+                # (a specific procedure has its own accessibility: its access statement, else the module's default -
+                #  not the generic name's)
+                "bodies": sorted((canon_proc(b, scope_default, True) for b in i.get("bodies", [])), key=lambda p: p["name"]),
                 "permission": perm, "doctr": docwords(i.get("doc")),
             })
         elif i["form"] == "abstract":
